@@ -48,6 +48,9 @@ Inductive op :=
 | DTtCalls (shape : list nat) (spec : rspec) (c : Q)
 | DTrCalls (shape : list nat) (spec : rspec) (mode : nat)
 | DTtmCalls (tshape : list nat) (spec : rspec) (c : Q)
+(* parafac2: the calls of _compute_projections (number of calls; which call's output the returned projections are, counted from the last: 0 = the
+   last call, 1 = the one before; 99 = none: the initial projections) -- decisions: the implementation's (line-search acceptance, convergence) *)
+| DP2Calls (ik : init_kind) (nn_builtin nf tol_set linesearch : bool) (n_iter : nat) (decisions : list (bool * bool))
 | DWprog (p : list wstmt)     (* the assignments to the CP weights read off a driver's source: the hypothesis of C08_wprog_unit_weights *)
 | DHprog (p : hprog)         (* the loop of partial_tucker read off the source: does it satisfy the hypothesis of C08_prog_run_core_projected? *)
 | QCpNorm (R : nat) (w : option (list Q)) (fs scales : list (list Q)) (tol : Q) (wout : list Q) (fout : list (list Q)).
@@ -120,6 +123,9 @@ Definition run (o : op) : res (list (list nat)) :=
   | DTtCalls shape spec c => one (tensor_train_calls shape spec c) (fun l => l ++ [[1]; [1]])
   | DTrCalls shape spec mode => one (tensor_ring_calls shape spec mode) (fun l => l ++ [[1]; [1]])
   | DTtmCalls tshape spec c => one (tensor_train_matrix_calls tshape spec c) (fun l => l ++ [[1]; [1]])
+  | DP2Calls ik nn nf tol_set ls n decisions =>
+      let t := p2o_trace ik nn nf tol_set ls n decisions in
+      Ok [[fst t]; [if snd t =? 0 then 99 else fst t - snd t]]
   | DWprog p => Ok [[if wprog_ok p then 1 else 0]]
   | DHprog p => Ok [[if prog_ok p then 1 else 0]]
   | DNorm2 d nf tol_set n decisions =>
